@@ -2,8 +2,7 @@
 from props.parts import sma_lib
 
 PART = dict(name='c05_gaia', simulator='gaia', ready=True,
-            coq_targets=['Corr/SmaGaiaCorr.vo'],
-            partial='no theorem yet for gaia: model correspondence + implementation oracle only')
+            coq_targets=['Properties/C05_gaia.vo', 'Corr/SmaGaiaCorr.vo'])
 
 
 def correspondence(ctx):
